@@ -349,4 +349,53 @@ theorem bytesLt_total : ∀ a b : Bytes, bytesLt a b = false → bytesLt b a = f
     · exact absurd rfl h'
     rw [bytesLt_total as bs h h']
 
+/-! ### written tokens are clean -/
+
+theorem hexDigit_ge : ∀ n, n < 32 → (32 : UInt8) ≤ hexDigit (n / 16) ∧ (32 : UInt8) ≤ hexDigit (n % 16) := by decide
+
+/-- no raw control byte (in particular no raw newline or NUL) inside a written token -/
+theorem escapeByte_clean (c : UInt8) : ∀ b ∈ escapeByte c, (32 : UInt8) ≤ b := by
+  unfold escapeByte
+  split
+  · decide
+  split
+  · decide
+  split
+  · decide
+  split
+  · decide
+  split
+  · decide
+  split
+  · decide
+  split
+  · decide
+  split
+  · rename_i h
+    have hn : c.toNat < 32 := by simpa [UInt8.lt_iff_toNat_lt] using h
+    obtain ⟨h1, h2⟩ := hexDigit_ge c.toNat hn
+    intro b hb
+    simp only [List.mem_cons, List.not_mem_nil, or_false] at hb
+    rcases hb with rfl | rfl | rfl | rfl | rfl | rfl
+    · decide
+    · decide
+    · decide
+    · decide
+    · exact h1
+    · exact h2
+  · rename_i h
+    intro b hb
+    simp only [List.mem_singleton] at hb
+    subst hb
+    rw [UInt8.le_iff_toNat_le]
+    rw [UInt8.lt_iff_toNat_lt] at h
+    simp at h ⊢
+    omega
+
+theorem escapeBody_clean (bs : Bytes) : ∀ b ∈ escapeBody bs, (32 : UInt8) ≤ b := by
+  intro b hb
+  simp only [escapeBody, List.mem_flatten, List.mem_map] at hb
+  obtain ⟨l, ⟨c, _, rfl⟩, hb⟩ := hb
+  exact escapeByte_clean c b hb
+
 end YgmVerif.Ser
